@@ -1,6 +1,7 @@
 """C16 - primitive decoders invert the standard encodings and consume exact lengths."""
 from symx.api import H
 from harness import c07 as C7
+from harness import c06 as C6
 from spec import enc
 
 PROPERTY = 'C16'
@@ -168,7 +169,8 @@ def h_cstring_stream(ctx):
     start = ctx.cfg.get('start', 0)
     use_pos = ctx.cfg.get('use_pos', True)
     U = ctx.lib('common.utils')
-    bs = ctx.bytes('b', n)
+    fixed = ctx.cfg.get('fixed', 0)     # a long string: the first `fixed` bytes are the letter A, only the tail is symbolic
+    bs = [0x41] * fixed + ctx.bytes('b', n - fixed)
     st = ctx.stream(bs, 0 if use_pos else start)
     r = U.parse_cstring_from_stream(st, start if use_pos else None)
     end = _ref_cstring(ctx, bs, start)
@@ -321,6 +323,8 @@ def _cstr_lens(tier):
     return list(range(0, 201))
 
 
+LONG_STRINGS = (4093, 65533, 65600, 131070)    # strings around 4 KiB, 64 KiB and 128 KiB (a DW_AT_producer or a mangled name can be that long)
+
 HARNESSES = [
     H('h16_1_leb128', h_leb,
       lambda tier: [dict(n=n, signed=s) for s in (False, True) for n in range(0, (17 if tier == 'quick' else 25))],
@@ -346,8 +350,12 @@ HARNESSES = [
            '(per format, address size and byte order) on symbolic bytes: value and exact consumption'),
     H('h16_6_counted_location_description', C7.h_v5, lambda tier: [c for c in C7._v5_instances(tier) if any(len(k) > 2 for k in c['kinds'])], expect=('ok',),
       desc='the ULEB128-counted location description of DWARF 5 location-list entries with 2- and 3-byte (padded) lengths (harness shared with C07)'),
+    H('h16_7_cie_header_fields', C6.h_scan, lambda tier: [c for c in C6._scan_instances(tier) if not c['eh'] and not c.get('fmt64') and len(c['entries']) == 2],
+      expect=('ok',), desc='the LEB128 fields of CIE headers (code/data alignment, return address register: unsigned for versions 3 and 4, one byte in version 1) '
+                           'with symbolic field bytes (harness shared with C06)'),
     H('h16_4_cstring_stream', h_cstring_stream,
-      lambda tier: [dict(n=n, start=0) for n in _cstr_lens(tier)] + [dict(n=n, start=s, use_pos=u) for n in (70, 130) for s in (1, 5, 64) for u in (True, False)],
+      lambda tier: [dict(n=n, start=0) for n in _cstr_lens(tier)] + [dict(n=n, start=s, use_pos=u) for n in (70, 130) for s in (1, 5, 64) for u in (True, False)] +
+                   [dict(n=f + 3, start=0, fixed=f) for f in LONG_STRINGS],
       expect=('ok', 'no-terminator'),
       desc='parse_cstring_from_stream (64-byte chunked reader) for every position of the first NUL in buffers of n symbolic bytes',
       bounds={'quick': 'n in {0,1,2,3,31,63..66,127..130}', 'thorough': 'n = 0..200'}),
